@@ -13,7 +13,7 @@ import (
 func init() {
 	register(Property{ID: "C37", Level: "other", Run: runC37,
 		Technique: "static analysis: enumeration of the write sequences of the structured branch of destinationStdout.log / destinationFile.log on the SSA CFG, static evaluation of the constant skeleton as JSON, sanitizer classification of the message value, sibling agreement",
-		Text:      "Decides for both destinations and every path through the structured branch: the constant pieces written around the three values form, with placeholders, one JSON object with timestamp/level/message members followed by exactly one '\\n' written last; the timestamp is t.Format(time.RFC3339Nano) of the record's time; the level is written by writeLevel without colour, whose colourless outputs are four distinct JSON-safe constants; the message is fmt.Sprintf(format, args...) passed through a JSON string encoder (encoding/json.Marshal) — strconv.Quote and %q are Go syntax, not JSON; the buffer is reset before and written to the sink exactly once after; both destinations agree; Logger.Initialize passes Logger.Structured to both constructors. Not decided: the syslog destination (it has no structured mode), time.Format / encoding/json internals.",
+		Text:      "Decides for both destinations and every path through the structured branch: the constant pieces written around the three values form, with placeholders, one JSON object with timestamp/level/message members followed by exactly one '\\n' written last; the timestamp is t.Format(time.RFC3339Nano) of the record's time; the level is written by writeLevel without colour, whose colourless outputs are four distinct JSON-safe constants; the message is fmt.Sprintf(format, args...) passed through a JSON string encoder (encoding/json.Marshal) — strconv.Quote and %q are Go syntax, not JSON; the buffer is reset before and written to the sink exactly once after; both destinations agree; every destination.log call (Logger.Log) hands on the record's own (format, args) parameters unchanged on every path - or a verbatim %s of fmt.Sprintf(format, args...) - and the record's level, so the text is formatted exactly once (an already formatted text passed as the format is formatted twice: '%' from arguments is re-interpreted); Logger.Initialize passes Logger.Structured to both constructors. Not decided: the syslog destination (it has no structured mode), time.Format / encoding/json internals.",
 		Note:      "trusted: go/types+go/ssa; time.Time.Format(RFC3339Nano) yields a JSON-safe string; encoding/json.Marshal of a string yields a JSON string with invalid UTF-8 replaced by U+FFFD"})
 	addMutants(
 		Mutant{"C37", "stdout-level-quote-dropped", "internal/logger/destination_stdout.go",
@@ -34,6 +34,12 @@ func init() {
 			"			buf.WriteString(\"WAR\")\n", "			buf.WriteString(\"WAR\\n\")\n", "C37.level"},
 		Mutant{"C37", "file-structured-inverted", "internal/logger/destination_file.go",
 			"	if d.structured {", "	if !d.structured {", "C37.object"},
+		Mutant{"C37", "record-args-dropped", "internal/logger/logger.go",
+			"dest.log(t, level, format, args...)", "dest.log(t, level, format)", "C37.record.message"},
+		Mutant{"C37", "record-format-extended", "internal/logger/logger.go",
+			"dest.log(t, level, format, args...)", "dest.log(t, level, format+\"\\n\", args...)", "C37.record.message"},
+		Mutant{"C37", "record-level-replaced", "internal/logger/logger.go",
+			"dest.log(t, level, format, args...)", "dest.log(t, l.Level, format, args...)", "C37.record.level"},
 		Mutant{"C37", "stdout-trailing-text-after-object", "internal/logger/destination_stdout.go",
 			"		d.buf.WriteString(`}`)\n		d.buf.WriteByte('\\n')\n", "		d.buf.WriteString(`}`)\n		d.buf.WriteByte('\\n')\n		d.buf.WriteString(format)\n", "C37.object"},
 	)
@@ -134,12 +140,13 @@ func runC37(c *Ctx) {
 	if p == nil {
 		return
 	}
-	c.Explain = "Per destination: locate the branch on d.structured, enumerate every acyclic path of the structured arm up to the sink block, turn each path into the ordered list of buffer writes (constants / time / level / message / other), and decide: JSON skeleton validity by evaluating the constants with placeholders (encoding/json in the checker, no /repo code is run), newline placement, timestamp layout and operand, level call, message encoder and operand; Reset-before / single sink write after; equality of the two destinations' skeletons; writeLevel's colourless constants; wiring of Logger.Structured."
+	c.Explain = "Per destination: locate the branch on d.structured, enumerate every acyclic path of the structured arm up to the sink block, turn each path into the ordered list of buffer writes (constants / time / level / message / other), and decide: JSON skeleton validity by evaluating the constants with placeholders (encoding/json in the checker, no /repo code is run), newline placement, timestamp layout and operand, level call, message encoder and operand; Reset-before / single sink write after; equality of the two destinations' skeletons; at each destination.log call site the format/args/level operands are the caller's parameters (C37.record); writeLevel's colourless constants; wiring of Logger.Structured."
 	c.Assume = []string{
 		"encoding/json.Marshal(string) is the JSON string encoder (invalid UTF-8 → U+FFFD)",
 		"time.Format(RFC3339Nano) output needs no JSON escaping and round-trips the instant",
 	}
 	c37Serialized(c, p)
+	c37Record(c, p)
 	skeletons := map[string]string{}
 	for _, d := range []string{"destinationStdout", "destinationFile"} {
 		fn := c.fn(p, "internal/logger", d, "log")
